@@ -376,4 +376,102 @@ func runC09(r *Rng, n int, tier string) {
 			}
 		}
 	}
+	// end to end, user-defined types: enums and composite types under every kind of name (plain, quoted
+	// mixed-case, schema-qualified), MySQL's per-column enums under differently cased table names
+	goName := func(n string) string {
+		var b strings.Builder
+		for _, p := range strings.Split(n, "_") {
+			if p == "id" {
+				b.WriteString("ID")
+			} else {
+				b.WriteString(strings.Title(p))
+			}
+		}
+		return b.String()
+	}
+	type udt struct{ pre, spelling, want, wantNull string }
+	udts := []udt{
+		{"CREATE TYPE mood AS ENUM ('a', 'b');\n", "mood", "Mood", "Mood"},
+		{"CREATE TYPE \"Mood\" AS ENUM ('a', 'b');\n", "\"Mood\"", "Mood", "Mood"},
+		{"CREATE TYPE \"DayOfWeek\" AS ENUM ('mon', 'tue');\n", "\"DayOfWeek\"", "DayOfWeek", "DayOfWeek"},
+		{"CREATE TYPE day_kind AS ENUM ('x');\n", "day_kind", "DayKind", "DayKind"},
+		{"CREATE TYPE \"Day_Kind\" AS ENUM ('x');\n", "\"Day_Kind\"", "DayKind", "DayKind"},
+		{"CREATE SCHEMA s1;\nCREATE TYPE s1.mood AS ENUM ('a');\n", "s1.mood", goName("s1_mood"), goName("s1_mood")},
+		{"CREATE SCHEMA \"S1\";\nCREATE TYPE \"S1\".\"Kind\" AS ENUM ('a');\n", "\"S1\".\"Kind\"", goName("S1_Kind"), goName("S1_Kind")},
+		{"CREATE TYPE pair AS (x int, y int);\n", "pair", "string", "sql.NullString"},
+		{"CREATE TYPE \"Point2D\" AS (x int, y int);\n", "\"Point2D\"", "string", "sql.NullString"},
+	}
+	for ui, u := range udts {
+		for _, nn := range []bool{true, false} {
+			for _, arr := range []bool{false, true} {
+				ty, null := u.spelling, ""
+				if arr {
+					ty += "[]"
+				}
+				if nn {
+					null = " NOT NULL"
+				}
+				want := u.wantNull
+				if nn || arr {
+					want = u.want
+				}
+				if arr {
+					want = "[]" + want
+				}
+				schema := u.pre + fmt.Sprintf("CREATE TABLE t (k int NOT NULL, c %s%s);\n", ty, null)
+				query := "-- name: GetC :one\nSELECT c FROM t WHERE k = 1;\n\n-- name: ByC :many\nSELECT k FROM t WHERE c = $1;\n\n-- name: InsC :exec\nINSERT INTO t (k, c) VALUES (1, $1);\n\n-- name: All :many\nSELECT * FROM t;\n"
+				files := map[string]string{"schema.sql": schema, "query.sql": query, "sqlc.json": confV1("postgresql", "")}
+				emit(udtCase(fmt.Sprintf("udt-pg-%d-%v-%v", ui, nn, arr), files, want, []string{"e2e-user", "postgresql"}))
+			}
+		}
+	}
+	for ti, tn := range []string{"invoices", "Invoices", "Order_Lines", "orderLines"} {
+		for _, nn := range []bool{true, false} {
+			null := ""
+			if nn {
+				null = " NOT NULL"
+			}
+			schema := fmt.Sprintf("CREATE TABLE %s (k int NOT NULL, c ENUM('a','b')%s);\n", tn, null)
+			query := fmt.Sprintf("-- name: GetC :one\nSELECT c FROM %s WHERE k = 1;\n\n-- name: ByC :many\nSELECT k FROM %s WHERE c = ?;\n\n-- name: InsC :exec\nINSERT INTO %s (k, c) VALUES (1, ?);\n\n-- name: All :many\nSELECT * FROM %s;\n", tn, tn, tn, tn)
+			files := map[string]string{"schema.sql": schema, "query.sql": query, "sqlc.json": confV1("mysql", "")}
+			emit(udtCase(fmt.Sprintf("udt-my-%d-%v", ti, nn), files, goName(tn+"_c"), []string{"e2e-user", "mysql"}))
+		}
+	}
+}
+
+// udtCase: a column of a user-defined type must have the type's Go name at every position
+func udtCase(id string, files map[string]string, want string, tags []string) Case {
+	res := generate(files)
+	impl := J{"ok": res.OK()}
+	oracle := ""
+	if !res.OK() {
+		impl["err"] = firstLine(res.Stderr + res.Err + res.Panic)
+		oracle = "generation failed: " + fmt.Sprint(impl["err"])
+	} else {
+		sum := summarize(res.Files)
+		for _, st := range sum.Structs {
+			if st.File == "models.go" && len(st.Fields) == 2 && st.Fields[0].Name == "K" {
+				impl["model"] = st.Fields[1].Type
+			}
+		}
+		if m := sum.method("GetC"); m != nil && len(m.Results) > 0 {
+			impl["result"] = m.Results[0]
+		}
+		if m := sum.method("ByC"); m != nil && len(m.Params) == 1 {
+			impl["param"] = m.Params[0].Type
+		}
+		if m := sum.method("InsC"); m != nil && len(m.Params) == 1 {
+			impl["insparam"] = m.Params[0].Type
+		}
+		var bad []string
+		for _, k := range []string{"model", "result", "param", "insparam"} {
+			if impl[k] != want {
+				bad = append(bad, fmt.Sprintf("%s=%v", k, impl[k]))
+			}
+		}
+		if len(bad) > 0 {
+			oracle = fmt.Sprintf("a column of this user-defined type is documented as %s; positions that differ: %v", want, bad)
+		}
+	}
+	return Case{ID: id, Kind: "e2e-user", In: J{"files": files, "want": want}, Impl: impl, Oracle: oracle, Tags: tags}
 }
